@@ -245,12 +245,12 @@ def roundtrip_cases(tier):
             for n in ((20, 32) if v == 0 else range(2, 41)):
                 progs = [bytes(n), b"\xff" * n]
                 nb = 8 * n
-                if n <= 5 or tier != "quick":
+                if n <= 5 or v == 0 or tier != "quick":
                     bits_ = range(nb)
                 else:
                     bits_ = sorted({0, 4, 5, nb // 2, nb - 5, nb - 1})
                 progs += [_single_bit(n, b) for b in bits_]
-                progs += [_prand(f"{net}/{v}/{n}/{i}", n) for i in range(nrand)]
+                progs += [_prand(f"{net}/{v}/{n}/{i}", n) for i in range(24 if v == 0 else nrand)]
                 progs.append(b"\x00" + _prand(f"{net}/{v}/{n}/z", n - 1))
                 for p in progs:
                     yield {"net": net, "v": v, "prog": hx(p)}
@@ -415,7 +415,7 @@ def accept_cases(draw):
     prog = _program(draw, v)
     base = ref.encode_addr(hrp, v, prog)
     if kind == "valid":
-        return fin(base, base)
+        return fin(base)
     t = bytearray(base.upper() if upper else base)
     upper_base = bytes(t)
     upper = False  # already applied
@@ -521,7 +521,7 @@ def targets(tier):
             "accept-set",
             check_string,
             strategy=lambda tier: accept_cases(),
-            budget={"quick": 24000, "thorough": 1000000},
+            budget={"quick": 20000, "thorough": 1000000},
             required=[
                 "expect-accept", "expect-reject", "nt:valid", "nt:valid-uppercase", "nt:mixed-case", "nt:wrong-const",
                 "nt:nonzero-pad", "nt:overlong-pad", "nt:bad-version-char", "nt:non-alphabet-first-data-char",
@@ -534,7 +534,7 @@ def targets(tier):
             "totality",
             check_string,
             strategy=lambda tier: totality_cases(),
-            budget={"quick": 24000, "thorough": 1000000},
+            budget={"quick": 16000, "thorough": 800000},
             required=[
                 "expect-accept", "expect-reject", "why:char-out-of-range", "why:no-separator", "why:empty-hrp",
                 "why:data-part-shorter-than-checksum", "nt:non-alphabet-first-data-char", "nt:version-and-checksum-only",
